@@ -347,9 +347,9 @@ func c11Run(c *Ctx, idx int) CaseResult {
 func init() {
 	register(&Prop{
 		ID: "C11", Level: "exploration", Batch: 4, PerCaseTimeout: 120 * time.Second,
-		Rule:          "case i = one store with 3-8 plans (every third store stale-heavy: several stale Running plans adjacent in search order): never started, Completed, Failed, Running with recent activity (a reachable write-prefix state), Running with every state time shifted into the past by {max+1min, 10*max} through the vault's Update* calls; configuration i mod 4 in {WithMaxLastUpdate(1 min), default 30 min, 2 h, WithNoRecovery}; fresh ages {0, max-1min}, in half of the fresh plans every object is max+10min old except one PRNG-chosen object (anywhere in the walk) that carries the fresh age; a recording vault and the scripted plugins observe writes and invocations per plan; distinct by (configuration, per-plan class/prefix/age)",
+		Rule:          "case i = one store with 3-8 plans (every third store stale-heavy: several stale Running plans adjacent in search order): never started, Completed, Failed, Running with recent activity (a reachable write-prefix state), Running with every state time shifted into the past by {max+1min, 10*max} through the vault's Update* calls; configuration i mod 4 in {WithMaxLastUpdate(1 min), default 30 min, 2 h, WithNoRecovery}; fresh ages {0, max-1min}, in half of the fresh plans every object is max+10min old except one PRNG-chosen object (anywhere in the walk) that carries the fresh age; a recording vault and the scripted plugins observe writes and invocations per plan; every 24th case is a cosmosdb crash case: a process dies between two client writes (in particular between the plan document and its search entry, in either order) and after the next start-up every plan whose document was not Running is exactly as it was (no invocation, no status or time changed); distinct by (configuration, per-plan class/prefix/age)",
 		Cases:         nCases(48, 1200),
-		Run:           c11Run,
+		Run:           everyNth(24, cosmosFor("C11"), c11Run),
 		RaceAttr:      raceHas("execute.(*recover)", "execute.runningToFailed", "execute.lastUpdate"),
 		MinNontrivial: 30,
 		Assumptions:   []string{"ages are chosen one minute away from the configured maximum (the SUT compares against time.Now()); equality at the boundary is not explored", "sqlite only"},
